@@ -2,6 +2,7 @@
 package eng
 
 import (
+	"fmt"
 	"go/constant"
 	"go/token"
 	"go/types"
@@ -361,4 +362,113 @@ func BuiltinName(c ssa.CallInstruction) string {
 		return b.Name()
 	}
 	return ""
+}
+
+// ReachableCorr is Reachable with one refinement: two tests of the same comparison (same operator up to negation, the
+// same SSA operands) agree as long as neither operand has been redefined in between. It walks (block, what is known)
+// states: taking an edge of `x op y` records its truth; a later test of the same comparison is followed only on the
+// consistent edge; entering a block that defines x or y (a loop header's phi) forgets what was known about it. This
+// decides `for i >= 0 && len(rows[i]) == 0 { i-- }; if i >= 0 { use rows[i] }`: the exit taken because i < 0 cannot
+// continue into the i >= 0 branch.
+func ReachableCorr(from *ssa.BasicBlock, blocked EdgeSet) map[*ssa.BasicBlock]bool {
+	type fact struct {
+		x, y ssa.Value
+		op   token.Token // normalised: one of EQL, LSS, LEQ (with x,y possibly swapped), truth in val
+		val  bool
+	}
+	norm := func(c Cmp) (fact, bool) {
+		x, y := StripConv(c.X), StripConv(c.Y)
+		switch c.Op {
+		case token.EQL:
+			return fact{x, y, token.EQL, true}, true
+		case token.NEQ:
+			return fact{x, y, token.EQL, false}, true
+		case token.LSS:
+			return fact{x, y, token.LSS, true}, true
+		case token.GEQ:
+			return fact{x, y, token.LSS, false}, true
+		case token.GTR:
+			return fact{y, x, token.LSS, true}, true
+		case token.LEQ:
+			return fact{y, x, token.LSS, false}, true
+		}
+		return fact{}, false
+	}
+	same := func(a, b ssa.Value) bool {
+		if a == b {
+			return true
+		}
+		ca, oka := a.(*ssa.Const)
+		cb, okb := b.(*ssa.Const)
+		return oka && okb && ca.Value != nil && cb.Value != nil && constant.Compare(ca.Value, token.EQL, cb.Value)
+	}
+	defines := func(b *ssa.BasicBlock, v ssa.Value) bool {
+		in, ok := v.(ssa.Instruction)
+		return ok && in.Block() == b
+	}
+	type state struct {
+		b     *ssa.BasicBlock
+		facts []fact
+	}
+	key := func(st state) string {
+		s := fmt.Sprint(st.b.Index)
+		for _, f := range st.facts {
+			s += fmt.Sprintf("|%p %p %v %v", f.x, f.y, f.op, f.val)
+		}
+		return s
+	}
+	seenState := map[string]bool{}
+	seen := map[*ssa.BasicBlock]bool{from: true}
+	work := []state{{from, nil}}
+	for len(work) > 0 && len(seenState) < 20000 {
+		st := work[len(work)-1]
+		work = work[:len(work)-1]
+		if seenState[key(st)] {
+			continue
+		}
+		seenState[key(st)] = true
+		b := st.b
+		// forget facts about values this block defines
+		var facts []fact
+		for _, f := range st.facts {
+			if !defines(b, f.x) && !defines(b, f.y) {
+				facts = append(facts, f)
+			}
+		}
+		var cur *fact
+		if len(b.Succs) == 2 {
+			if c, ok := EdgeCmp(b, 0); ok {
+				if f, ok2 := norm(c); ok2 {
+					cur = &f
+				}
+			}
+		}
+		for i, s := range b.Succs {
+			if blocked[[2]int{b.Index, i}] {
+				continue
+			}
+			nf := facts
+			if cur != nil {
+				want := cur.val
+				if i == 1 {
+					want = !want
+				}
+				contradicted := false
+				for _, f := range facts {
+					if f.op == cur.op && same(f.x, cur.x) && same(f.y, cur.y) && f.val != want {
+						contradicted = true
+					}
+				}
+				if contradicted {
+					continue
+				}
+				if len(facts) < 4 && !defines(b, cur.x) || len(facts) < 4 {
+					nf = append(append([]fact{}, facts...), fact{cur.x, cur.y, cur.op, want})
+				}
+			}
+			seen[s] = true
+			work = append(work, state{s, nf})
+		}
+	}
+	return seen
 }
